@@ -106,6 +106,11 @@ type c04Cfg struct {
 	gangs  []c04GangDef
 	flipAll bool // CRD configurations: the mode annotation of every gang may flip (thorough); otherwise only the first gang's
 	crd    bool // gangs defined by PodGroup objects (pods carry only the pod-group label); PodGroup events join the alphabet
+	// teardown (CRD): the alphabet also deletes a PodGroup whose pods are all gone (a complete teardown of the job; the
+	// PodGroup can then be created again: a NEW gang, whose group has not been satisfied yet) and rewrites the PodGroup's
+	// gang-groups annotation (couples it with a gang ns/GX that never exists, and back): seed C04-6
+	teardown bool
+	depth    int // 0: the tier's default
 }
 
 // c04PG: what the informer has delivered about a gang's PodGroup object (CRD configurations)
@@ -113,6 +118,7 @@ type c04PG struct {
 	present bool
 	min     int
 	flipped bool // the mode annotation currently says the opposite of the configuration's mode (annotation-only update)
+	regrouped bool // the gang-groups annotation currently also names ns/GX, a gang that does not exist
 	obj     *pgv1alpha1.PodGroup
 }
 
@@ -183,8 +189,12 @@ func (s *c04Sys) minOf(g c04GangDef) int {
 // defined: is the gang's definition known to the scheduler (always, when pods carry it; after the PodGroup add otherwise)
 func (s *c04Sys) defined(gang string) bool { return !s.cfg.crd || s.pgs[gang].present }
 
-func (c *c04Cfg) pgObj(g c04GangDef, min int, flipped bool) *pgv1alpha1.PodGroup {
-	groups, _ := json.Marshal(c.groupIDs())
+func (c *c04Cfg) pgObj(g c04GangDef, min int, flipped bool, regrouped ...bool) *pgv1alpha1.PodGroup {
+	ids := c.groupIDs()
+	if len(regrouped) > 0 && regrouped[0] {
+		ids = append(ids, "ns/GX")
+	}
+	groups, _ := json.Marshal(ids)
 	mode := c.mode
 	if flipped {
 		mode = c04OtherMode(mode)
@@ -279,6 +289,9 @@ func (s *c04Sys) refSatisfied() (bool, string) {
 	for _, g := range s.cfg.gangs {
 		if !s.defined(g.Name) {
 			return false, fmt.Sprintf("the PodGroup of gang %s has not been delivered yet", g.Name)
+		}
+		if s.cfg.crd && s.pgs[g.Name].regrouped {
+			return false, fmt.Sprintf("the PodGroup of gang %s couples it with gang ns/GX, which does not exist", g.Name)
 		}
 		n := 0
 		for _, pn := range g.Pods {
@@ -530,7 +543,7 @@ func c04BuildOps(cfg *c04Cfg) []c04Op {
 					enabled: func(s *c04Sys) bool { return !s.pgs[g.Name].present },
 					apply: func(s *c04Sys, check bool) []mc.Violation {
 						pg := s.pgs[g.Name]
-						pg.obj = s.cfg.pgObj(g, pg.min, pg.flipped)
+						pg.obj = s.cfg.pgObj(g, pg.min, pg.flipped, pg.regrouped)
 						s.mgr.cache.onPodGroupAdd(pg.obj)
 						pg.present = true
 						return nil
@@ -545,7 +558,7 @@ func c04BuildOps(cfg *c04Cfg) []c04Op {
 							pg.min = g.Min
 						}
 						old := pg.obj
-						pg.obj = s.cfg.pgObj(g, pg.min, pg.flipped)
+						pg.obj = s.cfg.pgObj(g, pg.min, pg.flipped, pg.regrouped)
 						s.mgr.cache.onPodGroupUpdate(old, pg.obj)
 						return nil
 					}},
@@ -555,10 +568,56 @@ func c04BuildOps(cfg *c04Cfg) []c04Op {
 						pg := s.pgs[g.Name]
 						pg.flipped = !pg.flipped
 						old := pg.obj
-						pg.obj = s.cfg.pgObj(g, pg.min, pg.flipped)
+						pg.obj = s.cfg.pgObj(g, pg.min, pg.flipped, pg.regrouped)
 						s.mgr.cache.onPodGroupUpdate(old, pg.obj)
 						return nil
 					}})
+			if cfg.teardown {
+				ops = append(ops,
+					c04Op{name: "informer.pgRegroup(" + g.Name + ")", // annotation-only update: the gang-groups annotation gains / loses ns/GX
+						enabled: func(s *c04Sys) bool { return s.pgs[g.Name].present },
+						apply: func(s *c04Sys, check bool) []mc.Violation {
+							pg := s.pgs[g.Name]
+							pg.regrouped = !pg.regrouped
+							old := pg.obj
+							pg.obj = s.cfg.pgObj(g, pg.min, pg.flipped, pg.regrouped)
+							s.mgr.cache.onPodGroupUpdate(old, pg.obj)
+							return nil
+						}},
+					c04Op{name: "informer.pgDelete(" + g.Name + ")", // the job is torn down: its pods are gone, now the PodGroup goes
+						enabled: func(s *c04Sys) bool {
+							if !s.pgs[g.Name].present {
+								return false
+							}
+							for _, pn := range g.Pods {
+								if s.pods[pn].st != c04Absent {
+									return false
+								}
+							}
+							return true
+						},
+						apply: func(s *c04Sys, check bool) []mc.Violation {
+							pg := s.pgs[g.Name]
+							s.mgr.cache.onPodGroupDelete(pg.obj)
+							pg.present, pg.regrouped, pg.obj = false, false, nil
+							// the whole gang group is gone: whatever comes under these names next is a new group, not yet satisfied
+							gone := true
+							for _, og := range s.cfg.gangs {
+								if s.pgs[og.Name].present {
+									gone = false
+								}
+								for _, pn := range og.Pods {
+									if s.pods[pn].st != c04Absent {
+										gone = false
+									}
+								}
+							}
+							if gone {
+								s.everHeld["g"] = false
+							}
+							return nil
+						}})
+			}
 		}
 	}
 	return ops
@@ -567,7 +626,7 @@ func c04BuildOps(cfg *c04Cfg) []c04Op {
 func (s *c04Sys) pgString() string {
 	var sb strings.Builder
 	for _, g := range s.cfg.gangs {
-		fmt.Fprintf(&sb, "%s:%v/%d/%v ", g.Name, s.pgs[g.Name].present, s.pgs[g.Name].min, s.pgs[g.Name].flipped)
+		fmt.Fprintf(&sb, "%s:%v/%d/%v/%v ", g.Name, s.pgs[g.Name].present, s.pgs[g.Name].min, s.pgs[g.Name].flipped, s.pgs[g.Name].regrouped)
 	}
 	return sb.String()
 }
@@ -716,6 +775,14 @@ func c04Configs(env *mc.Env) []*c04Cfg {
 			}
 		}
 	}
+	// complete teardown and re-creation of a PodGroup-defined gang, gang-groups annotation rewritten in between
+	two := []c04GangDef{{"G1", 2, []string{"a", "b"}}}
+	cfgs = append(cfgs, &c04Cfg{name: "crd-teardown|1gang-min2-2pods|" + extension.GangModeStrict + "|" + extension.GangMatchPolicyOnceSatisfied,
+		mode: extension.GangModeStrict, policy: extension.GangMatchPolicyOnceSatisfied, gangs: two, crd: true, teardown: true, depth: env.Pick(14, 16)})
+	if env.Thorough() {
+		cfgs = append(cfgs, &c04Cfg{name: "crd-teardown|1gang-min2-2pods|" + extension.GangModeStrict + "|" + extension.GangMatchPolicyWaitingAndRunning,
+			mode: extension.GangModeStrict, policy: extension.GangMatchPolicyWaitingAndRunning, gangs: two, crd: true, teardown: true, depth: 14})
+	}
 	return cfgs
 }
 
@@ -732,11 +799,14 @@ func TestVerifC04Hist(t *testing.T) {
 		res.Rule = fmt.Sprintf("BFS over all sequences of the %d-event alphabet (informer pod add / add-bound / update / stale pre-bind update / bound update / delete; scheduler permit, permit timeout, unreserve after reject, bind failure, post-bind, unschedulable member) on the real PodGroupManager+GangCache; the harness plays the framework's waiting-pod map", len(ops))
 		res.Assumptions = []string{
 			"framework contract (trusted base): Permit=Wait puts the pod into the waiting map; Allow releases it to the binding cycle; Reject (or permit timeout, bind failure, deletion while waiting) is followed by Unreserve for that pod; PostBind only after a successful bind; informer events per pod in resourceVersion order, the PreBind patch event may arrive after PostBind",
-			"gangs defined by pod annotations, or (configurations crd|...) by PodGroup objects whose add event may arrive in any order relative to the pods and whose minMember changes; PodGroup deletion is not in the alphabet; one gang group per configuration",
+			"gangs defined by pod annotations, or (configurations crd|...) by PodGroup objects whose add event may arrive in any order relative to the pods and whose minMember changes; PodGroup deletion only in the configurations crd-teardown|... and only after the gang's pods are gone (the statement does not say what a member of a deleted gang is); one gang group per configuration",
 		}
 		depth := env.Pick(10, 14)
 		if len(cfg.gangs) == 3 {
 			depth = 9
+		}
+		if cfg.depth > 0 {
+			depth = cfg.depth
 		}
 		b := &mc.BFS{Res: res, Env: env, New: func() mc.System { return c04NewSys(cfg, ops) }, NumOps: len(ops),
 			OpName: func(i int) string { return ops[i].name }, MaxDepth: depth, Repeats: 0}
